@@ -16,6 +16,16 @@ type Q struct {
 	f int
 }
 
+//«ctor2»
+type T2 struct {
+	g int
+}
+
+func NewT2() *T2 {
+	_ = T{} // SITE-T-IN-NEWT2
+	return &T2{} // SITE-T2-IN-NEWT2
+}
+
 var before = T{} // SITE-PKGVAR-BEFORE
 
 func NewT() *T {
@@ -23,6 +33,8 @@ func NewT() *T {
 	_ = z
 	p := new(T) // SITE-CTOR-NEW
 	_ = p
+	var other T2 // SITE-T2-INSIDE-NEWT
+	_ = other
 	return &T{f: 1} // SITE-CTOR-LIT
 }
 
@@ -57,7 +69,8 @@ func Other() {
 // ZZC02Basic: every instantiation form, inside/outside the listed constructors, package level before/after.
 func ZZC02Basic() {
 	ctor := nd.EnumPad("ctor", " @constructor NewT", " @constructor NewT, MakT", " @constructor MakT ,", " plain")
-	holes := []nd.Hole{{"ctor", ctor}}
+	ctor2 := nd.EnumPad("ctor2", " @constructor NewT2", " @constructor NewT2, NewT", " plain")
+	holes := []nd.Hole{{"ctor", ctor}, {"ctor2", ctor2}}
 	files := []nd.File{{Pkg: "zzmod/d", Name: "d.go", Src: c02SrcA}}
 	prog := nd.LoadProgram(files, holes)
 	res := Analyze(prog, config.Default(), "zzmod/d", Facts{}, "ctor")
@@ -68,7 +81,13 @@ func ZZC02Basic() {
 	src := c02SrcA
 	file := "/zz/zzmod/d/d.go"
 	nd.Known("C02/pkgvar-after-constructor", nd.And(ann, newListed))
+	ann2 := nd.HasPrefix(ctor2, " @constructor")
+	newTListedFor2 := nd.HasPrefix(ctor2, " @constructor NewT2, NewT")
 	exp := []Expect{
+		// the exemption is per (function, type): a constructor of one type is an ordinary function for another type
+		{file, nd.LineOf(src, "SITE-T-IN-NEWT2"), "CTOR01", ann},
+		{file, nd.LineOf(src, "SITE-T2-IN-NEWT2"), "CTOR01", false},
+		{file, nd.LineOf(src, "SITE-T2-INSIDE-NEWT"), "CTOR03", nd.And(ann2, nd.Not(newTListedFor2))},
 		{file, nd.LineOf(src, "SITE-PKGVAR-BEFORE"), "CTOR01", ann},
 		{file, nd.LineOf(src, "SITE-CTOR-VAR"), "CTOR03", nd.And(ann, nd.Not(newListed))},
 		{file, nd.LineOf(src, "SITE-CTOR-NEW"), "CTOR02", nd.And(ann, nd.Not(newListed))},
